@@ -222,11 +222,15 @@ class SubclassJSONSerializer:
         if isinstance(data, list_like_classes):
             return [from_json(d) for d in data]
 
-        fully_qualified_class_name = data.get(JSON_TYPE_NAME)
-        if not fully_qualified_class_name:
+        if JSON_TYPE_NAME not in data:
             raise MissingTypeError()
+        fully_qualified_class_name = data[JSON_TYPE_NAME]
 
-        if not isinstance(fully_qualified_class_name, str):
+        # a tag that is there but is not a name (null, a number, a boolean, a collection, the empty string)
+        if (
+            not isinstance(fully_qualified_class_name, str)
+            or not fully_qualified_class_name
+        ):
             raise InvalidTypeFormatError(fully_qualified_class_name)
 
         try:
@@ -239,11 +243,12 @@ class SubclassJSONSerializer:
 
         try:
             module = importlib.import_module(module_name)
-        except Exception as exc:
+        except (Exception, SystemExit) as exc:
             # the name of a class that is defined inside another class continues with the enclosing classes
             module = _resolve_enclosing_class(module_name)
             if module is None:
-                # a module that cannot be imported for whatever reason (not found, syntax error, an error while it runs)
+                # a module that cannot be imported for whatever reason (not found, syntax error, an error while it runs,
+                # a script that ends with sys.exit)
                 raise UnknownModuleError(module_name) from exc
 
         try:
@@ -263,6 +268,13 @@ class SubclassJSONSerializer:
             ):
                 # the base class itself, or a subclass that does not say how it is created from json
                 raise ClassNotDeserializableError(target_cls)
+            plain_function = inspect.getattr_static(target_cls, "_from_json", None)
+            if inspect.isfunction(plain_function):
+                # neither a class method nor a static method: it is called on the class without an instance
+                try:
+                    inspect.signature(plain_function).bind(data, **kwargs)
+                except TypeError as exc:
+                    raise ClassNotDeserializableError(target_cls) from exc
             return target_cls._from_json(data, **kwargs)
 
         registered_json_deserializer = JSONSerializableTypeRegistry().get_deserializer(
